@@ -26,6 +26,31 @@ class Grammar:
         self.tassoc = dict(tassoc or {})
         self.tags = tuple(tags)
 
+    def is_cyclic(self):
+        """some nonterminal derives itself without consuming input (A =>+ A): infinitely ambiguous; an LR driver (the
+        specification's as well as any real one) may reduce empty rules for ever on such a grammar"""
+        nullable = set()
+        changed = True
+        while changed:
+            changed = False
+            for (l, r, _) in self.rules:
+                if l not in nullable and all(x in nullable for x in r):
+                    nullable.add(l); changed = True
+        edges = {n: set() for n in self.nts}
+        for (l, r, _) in self.rules:
+            for i, x in enumerate(r):
+                if x in edges and all(y in nullable for y in r[:i] + r[i + 1:]):
+                    edges[l].add(x)
+        for start in self.nts:
+            seen, todo = set(), list(edges.get(start, ()))
+            while todo:
+                x = todo.pop()
+                if x == start:
+                    return True
+                if x not in seen:
+                    seen.add(x); todo += list(edges.get(x, ()))
+        return False
+
     def has_error(self):
         return any('error' in r[1] for r in self.rules)
 
